@@ -104,7 +104,7 @@ func Modify(node Node, f func(Node) (Node, bool)) (Node, bool) { //nolint:funlen
 			if !ok {
 				return nil, false
 			}
-			newNode.Parameters[i] = id.(*Identifier)
+			newNode.Parameters[i] = id // not necessarily an *Identifier anymore (e.g. a register).
 		}
 		nb, ok := Modify(node.Body, f)
 		if !ok {
@@ -191,7 +191,7 @@ func Modify(node Node, f func(Node) (Node, bool)) (Node, bool) { //nolint:funlen
 			if !ok {
 				return nil, false
 			}
-			newNode.Parameters[i] = id.(*Identifier)
+			newNode.Parameters[i] = id // not necessarily an *Identifier anymore (e.g. a register).
 		}
 		nb, ok := Modify(node.Body, f)
 		if !ok {
